@@ -4,7 +4,8 @@
 set -u
 D=$(cd "$1" && pwd); TIER="${2:-quick}"
 P=$(python3 -c "import json,sys;print(json.load(open('$D/meta.json'))['property'])")
-cd /verif
+cd "${SEED_VERIF:-/verif}"
+# SEED_VERIF=<worktree of /verif> runs the check from a separate checkout (so /verif can be edited meanwhile)
 # SEED_REPO=<scratch worktree of /repo HEAD> keeps /repo itself untouched (checks honour VERIF_REPO)
 R="${SEED_REPO:-/repo}"
 [ "$R" = /repo ] || export VERIF_REPO="$R"
